@@ -127,6 +127,19 @@ EXTRA3 = {
 for _k, _v in EXTRA3.items():
     CLAIMS[_k]['text'] += _v
 
+EXTRA4 = {
+ 'C14': ' A helper returning (x / y, x % y)-based pairs returns a division with remainder: q*y + r = x on every path (E1.R6).',
+ 'C09': ' SnfCalc::new creates accumulator k iff flags[k], sized m, m, n, n (E6.M5).',
+ 'C15': ' The decision tree of the generic div_round, folded over a grid of operands, gives the nearest integer with ties away from zero (E15.V1).',
+ 'C16': ' MultiDeg::min_index / max_index are the extreme keys of the exponent map (E24.X3).',
+ 'C11': ' MatrixStr::head_col_in is the left-most stored entry of the row (E5.L10).',
+ 'C10': ' A whole-column exchange of lambda is checked for homogeneity like any other store (E14).',
+ 'C04': ' Link::resolved_by gives bit i to the i-th unresolved crossing (E7.T12).',
+ 'C02': ' The Koszul sign of connect_edges is present on every path that produces an edge of the signed family (E8.F11).',
+}
+for _k, _v in EXTRA4.items():
+    CLAIMS[_k]['text'] += _v
+
 NA = {
 }
 PENDING = 'not claimed at this commit: its static check (DESIGN.md §4) is still being built'
